@@ -254,9 +254,14 @@ class Run:
 
     def ev_s1f13(self):
         system = next(self.sysgen)
-        self.note(f"in S1F13({system:#x})")
+        # a peer that does not ask for the reply (W-bit clear): whatever the handler makes of it, M1 still demands a completed
+        # S1F13/S1F14 exchange before COMMUNICATING is reported
+        wbit = self.ctx.rng.random() >= 0.2
+        if not wbit:
+            self.ctx.count("inbound_S1F13_without_W_bit")
+        self.note(f"in S1F13{'' if wbit else '-without-W'}({system:#x})")
         before = self.rig.comm_state
-        self.rig.inject(1, 13, True, _s1f13_body(self.role), system)
+        self.rig.inject(1, 13, wbit, _s1f13_body(self.role), system)
         self.msg_since_failure = True
         self.exchanged += 1
         self.rig.wait(lambda: any(f.system == system for _, f in self.rig.data_frames(self.seen)), 2.0)
